@@ -1,6 +1,7 @@
 import Driver.OpsValidate
 import Driver.OpsCarddav
 import Driver.OpsCaldav
+import Driver.OpsCodec
 namespace Driver
 
 def dispatch (op : String) (args : List SExp) : Option OpResult :=
@@ -10,6 +11,26 @@ def dispatch (op : String) (args : List SExp) : Option OpResult :=
   | "cal.match" => opCalMatch args
   | "cal.filter" => opCalFilter args
   | "cal.dtend" => opCalDtend args
+  | "depth.parse" => opDepthParse args
+  | "depth.str" => opDepthStr args
+  | "ow.parse" => opOwParse args
+  | "ow.fmt" => opOwFmt args
+  | "status.enc" => opStatusEnc args
+  | "status.dec" => opStatusDec args
+  | "status.rt" => opStatusRt args
+  | "etag.enc" => opEtagEnc args
+  | "etag.dec" => opEtagDec args
+  | "etag.rt" => opEtagRt args
+  | "href.enc" => opHrefEnc args
+  | "href.dec" => opHrefDec args
+  | "href.rt" => opHrefRt args
+  | "httpdate.enc" => opDateEnc false args
+  | "httpdate.dec" => opDateDec false args
+  | "httpdate.rt" => opDateRt false args
+  | "caldate.enc" => opDateEnc true args
+  | "caldate.dec" => opDateDec true args
+  | "caldate.rt" => opDateRt true args
+  | "enum.parse" => opEnumParse args
   | "card.filter" => opCardFilter args
   | _ => none
 
